@@ -24,6 +24,7 @@ DIMS = {
     "n": ("Number", [7, 9], None),
     "m": ("Cohort", ["pre", 1990, 1995], None),          # text and numbers in one (untyped) dimension
     "z": ("Age", [0, 1, 2], "int"),           # items that look like the default row labels 0, 1, 2, ...
+    "p": ("From", ["CN", "EU", "US"], None), "q": ("Into", ["EU", "US"], None),       # different item sets that OVERLAP, shared items at other positions
     "o": ("Origin", ["r0", "r1"], None), "d": ("Destination", ["r0", "r1"], None),       # two dimensions over the SAME items
 }
 
@@ -354,7 +355,8 @@ FAULTS = ["none", "drop-first", "drop-middle", "drop-last", "duplicate", "unknow
           "unknown-item-first-dimension", "unknown-item-early", "unknown-item-in-single-item-column",
           "repeated-row-labels", "nan+repeated-row-labels", "label-as-text-in-untyped-dimension",
           "infinite-value", "infinite+drop", "infinite+nan", "duplicate-with-other-value", "row-relabelled-onto-existing-combination",
-          "unknown-item-early+rows-shuffled-keeping-their-index", "rows-shuffled-keeping-their-index", "nan+rows-shuffled-keeping-their-index"]
+          "unknown-item-early+rows-shuffled-keeping-their-index", "rows-shuffled-keeping-their-index", "nan+rows-shuffled-keeping-their-index",
+          "blank-label-in-numeric-dimension"]
 
 
 def long_frame(dw, arr, letters):
@@ -484,6 +486,25 @@ def apply_fault(dw, df: PD.Frame, letters, fault):
             rows[k] = list(rows[k])
             rows[k][cand[0]] = str(rows[k][cand[0]])
             note["extra"] = True
+        elif f == "blank-label-in-numeric-dimension":
+            # a numeric dimension: one row has NO label there (an empty cell), and the genuine row of that dimension's first item (e.g. item
+            # 0) for the same other labels is absent - an empty label is not an item (in particular not the item 0)
+            num = [i for i, l in zip(ci, letters) if all(isinstance(x, int) for x in DIMS[l][1])]
+            if not num or len(rows) < 2:
+                return None
+            j = num[0]
+            first_item = DIMS[letters[ci.index(j)]][1][0]
+            k = next((i for i, r in enumerate(rows) if r[j] != first_item), None)
+            if k is None:
+                return None
+            twin = [i for i, r in enumerate(rows) if i != k and r[j] == first_item and all(r[c] == rows[k][c] for c in ci if c != j)]
+            removed.append(key(rows[k]))
+            rows[k] = list(rows[k])
+            rows[k][j] = PD.NaN
+            for i in sorted(twin, reverse=True):
+                removed.append(key(rows[i]))
+                del rows[i]
+            note["extra"] = True
         elif f == "rows-shuffled-keeping-their-index":
             # as after df.sample(frac=1) / sort_values: the rows are in another order and each keeps its integer label
             order = list(range(len(rows)))
@@ -608,6 +629,9 @@ def case_faults(prog, letters, target="from_df"):
                 want.update(note.get("changed", {}))
                 for k in removed + nan_keys:
                     want[k] = rat(0)
+                if kind != "ok" and fault == "blank-label-in-numeric-dimension":
+                    continue        # refusing a row without a label outright is fine under every flag combination (the property names
+                    #                 unknown ITEMS as ignorable, not empty label cells); what must not happen is that the row is placed
                 if kind != "ok":
                     out.append((inp, False, f"data that must be accepted under these flags ({fault}) were refused: {getattr(res, 'exc_name', kind)} {getattr(res, 'msg', res)!s:.160}", qual))
                 else:
